@@ -25,10 +25,6 @@ theorem PyVal.isNoneV_iff {v : PyVal} : v.isNoneV = true ↔ v = .none := by
 theorem PyVal.isNone_eq {v : PyVal} (h : v.isNone = true) : v = .none := by
   cases v <;> simp [PyVal.isNone] at h ⊢
 
-theorem unstruct_none_of_noneOK {ty : PyTy} (h : ty.noneOK = true) : unstruct E 2 (some ty) .none = .ok .null := by
-  cases ty <;> simp [PyTy.noneOK] at h <;> try (simp [unstruct, rawJson]; done)
-  case union ts => cases ho : PyTy.optionalOf ts <;> simp [unstruct, ho, PyVal.isNoneV, rawJson]
-
 theorem nrel_str : ∀ (k : Nat) (ty : PyTy) (s : Name) (j' : Json), nrel E k ty (.str s) j' = true → j' = .str s
   | 0, _, _, _, h => by simp [nrel] at h
   | k + 1, ty, s, j', h => by
@@ -96,77 +92,112 @@ theorem lookupAttr_aligned (r : PyTy → PyVal → Json → Bool) (kvs : List (N
 /-! ### collecting element results at one common fuel -/
 
 theorem collect_list (o : Option PyTy) (t : PyTy) (n : Nat)
-    (IH : ∀ w x, rep E bad n t w x = true → OutAt E o t w x) :
+    (IH : ∀ w x, rep E bad n t w x = true → OutAt E bad o t w x) :
     ∀ (vs : List PyVal) (xs : List Json), all2 (rep E bad n t) vs xs = true →
-      ∃ ys, (∃ m, mapE (unstruct E m o) vs = .ok ys) ∧ (∃ k, all2 (nrel E k t) xs ys = true)
-  | [], [], _ => ⟨[], ⟨0, rfl⟩, ⟨0, rfl⟩⟩
+      ∃ ys, (∃ m, mapE (unstruct E m o) vs = .ok ys) ∧ (∃ k, all2 (nrel E k t) xs ys = true) ∧
+        (∃ k, all2 (rep E bad k t) vs ys = true)
+  | [], [], _ => ⟨[], ⟨0, rfl⟩, ⟨0, rfl⟩, ⟨0, rfl⟩⟩
   | [], _ :: _, h => by simp [all2] at h
   | _ :: _, [], h => by simp [all2] at h
   | v :: vs, x :: xs, h => by
     simp only [all2, Bool.and_eq_true] at h
-    obtain ⟨ys, ⟨m2, hm2⟩, ⟨k2, hk2⟩⟩ := collect_list o t n IH vs xs h.2
-    obtain ⟨y, ⟨m1, hm1⟩, ⟨k1, hk1⟩⟩ := IH v x h.1
-    refine ⟨y :: ys, ⟨max m1 m2, ?_⟩, ⟨max k1 k2, ?_⟩⟩
+    obtain ⟨ys, ⟨m2, hm2⟩, ⟨k2, hk2⟩, ⟨r2, hr2⟩⟩ := collect_list o t n IH vs xs h.2
+    obtain ⟨y, ⟨m1, hm1⟩, ⟨k1, hk1⟩, ⟨r1, hr1⟩⟩ := IH v x h.1
+    refine ⟨y :: ys, ⟨max m1 m2, ?_⟩, ⟨max k1 k2, ?_⟩, ⟨max r1 r2, ?_⟩⟩
     · rw [mapE_cons_ok]
       exact ⟨y, ys, unstruct_mono E (Nat.le_max_left _ _) hm1,
         mapE_mono vs ys (fun a _ b hab => unstruct_mono E (Nat.le_max_right _ _) hab) hm2, rfl⟩
     · simp only [all2, Bool.and_eq_true]
       exact ⟨nrel_mono E (Nat.le_max_left _ _) hk1, all2_mono (fun a b hab => nrel_mono E (Nat.le_max_right _ _) hab) xs ys hk2⟩
+    · simp only [all2, Bool.and_eq_true]
+      exact ⟨rep_mono E bad (Nat.le_max_left _ _) hr1, all2_mono (fun a b hab => rep_mono E bad (Nat.le_max_right _ _) hab) vs ys hr2⟩
 
-theorem collect_tuple_d (n : Nat) (IH : ∀ t w x, rep E bad n t w x = true → OutAt E Option.none t w x) :
+theorem collect_tuple_d (n : Nat) (IH : ∀ t w x, rep E bad n t w x = true → OutAt E bad Option.none t w x) :
     ∀ (ts : List PyTy) (vs : List PyVal) (xs : List Json), all3 (rep E bad n) ts vs xs = true →
-      ∃ ys, (∃ m, mapE (unstruct E m Option.none) vs = .ok ys) ∧ (∃ k, all3 (nrel E k) ts xs ys = true)
-  | [], [], [], _ => ⟨[], ⟨0, rfl⟩, ⟨0, rfl⟩⟩
+      ∃ ys, (∃ m, mapE (unstruct E m Option.none) vs = .ok ys) ∧ (∃ k, all3 (nrel E k) ts xs ys = true) ∧
+        (∃ k, all3 (rep E bad k) ts vs ys = true)
+  | [], [], [], _ => ⟨[], ⟨0, rfl⟩, ⟨0, rfl⟩, ⟨0, rfl⟩⟩
   | t :: ts, v :: vs, x :: xs, h => by
     simp only [all3, Bool.and_eq_true] at h
-    obtain ⟨ys, ⟨m2, hm2⟩, ⟨k2, hk2⟩⟩ := collect_tuple_d n IH ts vs xs h.2
-    obtain ⟨y, ⟨m1, hm1⟩, ⟨k1, hk1⟩⟩ := IH t v x h.1
-    refine ⟨y :: ys, ⟨max m1 m2, ?_⟩, ⟨max k1 k2, ?_⟩⟩
+    obtain ⟨ys, ⟨m2, hm2⟩, ⟨k2, hk2⟩, ⟨r2, hr2⟩⟩ := collect_tuple_d n IH ts vs xs h.2
+    obtain ⟨y, ⟨m1, hm1⟩, ⟨k1, hk1⟩, ⟨r1, hr1⟩⟩ := IH t v x h.1
+    refine ⟨y :: ys, ⟨max m1 m2, ?_⟩, ⟨max k1 k2, ?_⟩, ⟨max r1 r2, ?_⟩⟩
     · rw [mapE_cons_ok]
       exact ⟨y, ys, unstruct_mono E (Nat.le_max_left _ _) hm1,
         mapE_mono vs ys (fun a _ b hab => unstruct_mono E (Nat.le_max_right _ _) hab) hm2, rfl⟩
     · simp only [all3, Bool.and_eq_true]
       exact ⟨nrel_mono E (Nat.le_max_left _ _) hk1, all3_mono (fun a b c habc => nrel_mono E (Nat.le_max_right _ _) habc) ts xs ys hk2⟩
+    · simp only [all3, Bool.and_eq_true]
+      exact ⟨rep_mono E bad (Nat.le_max_left _ _) hr1, all3_mono (fun a b c habc => rep_mono E bad (Nat.le_max_right _ _) habc) ts vs ys hr2⟩
   | [], [], _ :: _, h => by simp [all3] at h
   | [], _ :: _, _, h => by simp [all3] at h
   | _ :: _, [], _, h => by simp [all3] at h
   | _ :: _, _ :: _, [], h => by simp [all3] at h
 
-theorem collect_tuple_t (n : Nat) (IH : ∀ t w x, rep E bad n t w x = true → OutAt E (some t) t w x) :
+theorem collect_tuple_t (n : Nat) (IH : ∀ t w x, rep E bad n t w x = true → OutAt E bad (some t) t w x) :
     ∀ (ts : List PyTy) (vs : List PyVal) (xs : List Json), all3 (rep E bad n) ts vs xs = true →
-      ∃ ys, (∃ m, zipE (fun t x => unstruct E m (some t) x) ts vs = .ok ys) ∧ (∃ k, all3 (nrel E k) ts xs ys = true)
-  | [], [], [], _ => ⟨[], ⟨0, rfl⟩, ⟨0, rfl⟩⟩
+      ∃ ys, (∃ m, zipE (fun t x => unstruct E m (some t) x) ts vs = .ok ys) ∧ (∃ k, all3 (nrel E k) ts xs ys = true) ∧
+        (∃ k, all3 (rep E bad k) ts vs ys = true)
+  | [], [], [], _ => ⟨[], ⟨0, rfl⟩, ⟨0, rfl⟩, ⟨0, rfl⟩⟩
   | t :: ts, v :: vs, x :: xs, h => by
     simp only [all3, Bool.and_eq_true] at h
-    obtain ⟨ys, ⟨m2, hm2⟩, ⟨k2, hk2⟩⟩ := collect_tuple_t n IH ts vs xs h.2
-    obtain ⟨y, ⟨m1, hm1⟩, ⟨k1, hk1⟩⟩ := IH t v x h.1
-    refine ⟨y :: ys, ⟨max m1 m2, ?_⟩, ⟨max k1 k2, ?_⟩⟩
+    obtain ⟨ys, ⟨m2, hm2⟩, ⟨k2, hk2⟩, ⟨r2, hr2⟩⟩ := collect_tuple_t n IH ts vs xs h.2
+    obtain ⟨y, ⟨m1, hm1⟩, ⟨k1, hk1⟩, ⟨r1, hr1⟩⟩ := IH t v x h.1
+    refine ⟨y :: ys, ⟨max m1 m2, ?_⟩, ⟨max k1 k2, ?_⟩, ⟨max r1 r2, ?_⟩⟩
     · have h1 := unstruct_mono E (Nat.le_max_left m1 m2) hm1
       have h2 := zipE_mono ts vs ys (fun a b c habc => unstruct_mono E (Nat.le_max_right m1 m2) habc) hm2
       simp only [zipE, bind, Except.bind, h1, h2]
     · simp only [all3, Bool.and_eq_true]
       exact ⟨nrel_mono E (Nat.le_max_left _ _) hk1, all3_mono (fun a b c habc => nrel_mono E (Nat.le_max_right _ _) habc) ts xs ys hk2⟩
+    · simp only [all3, Bool.and_eq_true]
+      exact ⟨rep_mono E bad (Nat.le_max_left _ _) hr1, all3_mono (fun a b c habc => rep_mono E bad (Nat.le_max_right _ _) habc) ts vs ys hr2⟩
   | [], [], _ :: _, h => by simp [all3] at h
   | [], _ :: _, _, h => by simp [all3] at h
   | _ :: _, [], _, h => by simp [all3] at h
   | _ :: _, _ :: _, [], h => by simp [all3] at h
 
+theorem hasKey_congr : ∀ (a b : List (Name × Json)) (k : Name), a.map (·.1) = b.map (·.1) → Json.hasKey a k = Json.hasKey b k
+  | [], [], _, _ => rfl
+  | [], _ :: _, _, h => by simp at h
+  | _ :: _, [], _, h => by simp at h
+  | (k1, x) :: a, (k2, y) :: b, k, h => by
+    simp only [List.map_cons, List.cons.injEq] at h
+    obtain ⟨hk, hr⟩ := h
+    subst hk
+    have ih := hasKey_congr a b k hr
+    simp only [Json.hasKey, Json.lookup] at ih ⊢
+    by_cases hc : (k1 == k) = true
+    · simp [hc]
+    · simp only [hc]; exact ih
+
+theorem keysNodup_congr : ∀ (a b : List (Name × Json)), a.map (·.1) = b.map (·.1) → keysNodup a = keysNodup b
+  | [], [], _ => rfl
+  | [], _ :: _, h => by simp at h
+  | _ :: _, [], h => by simp at h
+  | (k1, x) :: a, (k2, y) :: b, h => by
+    simp only [List.map_cons, List.cons.injEq] at h
+    obtain ⟨hk, hr⟩ := h
+    subst hk
+    simp only [keysNodup, hasKey_congr a b k1 hr, keysNodup_congr a b hr]
+
 theorem collect_entries_u (ok ov : Option PyTy) (k t : PyTy) (n : Nat)
-    (IHk : ∀ w x, rep E bad n k w x = true → OutAt E ok k w x)
-    (IHv : ∀ w x, rep E bad n t w x = true → OutAt E ov t w x)
+    (IHk : ∀ w x, rep E bad n k w x = true → OutAt E bad ok k w x)
+    (IHv : ∀ w x, rep E bad n t w x = true → OutAt E bad ov t w x)
     (hstr : k = .str → ∀ s, unstruct E 1 ok (.str s) = .ok (.str s)) :
     ∀ (ps : List (PyVal × PyVal)) (kvs : List (Name × Json)), all2 (repEntry (rep E bad n) k t) ps kvs = true →
       ∃ out, (∃ m, mapE (unstructEntry (unstruct E m ok) (unstruct E m ov)) ps = .ok out) ∧
-        (∃ k', all2 (relEntry (nrel E k' t)) kvs out = true)
-  | [], [], _ => ⟨[], ⟨0, rfl⟩, ⟨0, rfl⟩⟩
+        (∃ k', all2 (relEntry (nrel E k' t)) kvs out = true) ∧
+        out.map (·.1) = kvs.map (·.1) ∧
+        (∃ k', all2 (repEntry (rep E bad k') k t) ps out = true)
+  | [], [], _ => ⟨[], ⟨0, rfl⟩, ⟨0, rfl⟩, rfl, ⟨0, rfl⟩⟩
   | [], _ :: _, h => by simp [all2] at h
   | _ :: _, [], h => by simp [all2] at h
   | p :: ps, kv :: kvs, h => by
     simp only [all2, Bool.and_eq_true] at h
-    obtain ⟨out, ⟨m2, hm2⟩, ⟨k2, hk2⟩⟩ := collect_entries_u ok ov k t n IHk IHv hstr ps kvs h.2
+    obtain ⟨out, ⟨m2, hm2⟩, ⟨k2, hk2⟩, hkeys, ⟨r2, hr2⟩⟩ := collect_entries_u ok ov k t n IHk IHv hstr ps kvs h.2
     have h1 := h.1
     simp only [repEntry, Bool.and_eq_true] at h1
-    obtain ⟨y, ⟨mv, hmv⟩, ⟨kv', hkv'⟩⟩ := IHv p.2 kv.2 h1.2
+    obtain ⟨y, ⟨mv, hmv⟩, ⟨kv', hkv'⟩, ⟨rv, hrv⟩⟩ := IHv p.2 kv.2 h1.2
     have hkey : ∃ m, unstruct E m ok p.1 = .ok (.str kv.1) := by
       have h11 := h1.1
       cases k
@@ -175,12 +206,12 @@ theorem collect_entries_u (ok ov : Option PyTy) (k t : PyTy) (n : Nat)
         subst h11
         exact ⟨1, hstr rfl _⟩
       all_goals
-        obtain ⟨kj, ⟨mk, hmk⟩, ⟨kk, hkk⟩⟩ := IHk p.1 (.str kv.1) h11
+        obtain ⟨kj, ⟨mk, hmk⟩, ⟨kk, hkk⟩, _⟩ := IHk p.1 (.str kv.1) h11
         have := nrel_str E kk _ kv.1 kj hkk
         subst this
         exact ⟨mk, hmk⟩
     obtain ⟨mk, hmk⟩ := hkey
-    refine ⟨(kv.1, y) :: out, ⟨mk + mv + m2, ?_⟩, ⟨max kv' k2, ?_⟩⟩
+    refine ⟨(kv.1, y) :: out, ⟨mk + mv + m2, ?_⟩, ⟨max kv' k2, ?_⟩, by simp [hkeys], ⟨max (max n rv) r2, ?_⟩⟩
     · rw [mapE_cons_ok]
       refine ⟨(kv.1, y), out, ?_, mapE_mono ps out (fun a _ b hab =>
         unstructEntry_mono (fun w z hh => unstruct_mono E (by omega) hh) (fun w z hh => unstruct_mono E (by omega) hh) a b hab) hm2, rfl⟩
@@ -193,6 +224,15 @@ theorem collect_entries_u (ok ov : Option PyTy) (k t : PyTy) (n : Nat)
         exact nrel_mono E (Nat.le_max_left _ _) hkv'
       · simp only [relEntry, Bool.and_eq_true] at hab ⊢
         exact ⟨hab.1, nrel_mono E (Nat.le_max_right _ _) hab.2⟩
+    · simp only [all2, Bool.and_eq_true]
+      refine ⟨?_, all2_mono (fun a b hab => repEntry_mono (fun t' w x hh => rep_mono E bad (Nat.le_max_right _ _) hh) k t a b hab) ps out hr2⟩
+      have hle1 : n ≤ max (max n rv) r2 := Nat.le_trans (Nat.le_max_left n rv) (Nat.le_max_left _ _)
+      have hle2 : rv ≤ max (max n rv) r2 := Nat.le_trans (Nat.le_max_right n rv) (Nat.le_max_left _ _)
+      have hsrc : repEntry (rep E bad n) k t p (kv.1, kv.2) = true := by
+        simp only [repEntry, Bool.and_eq_true]; exact h1
+      have hlift := repEntry_mono (fun t' w x hh => rep_mono E bad hle1 hh) k t p (kv.1, kv.2) hsrc
+      simp only [repEntry, Bool.and_eq_true] at hlift ⊢
+      exact ⟨hlift.1, rep_mono E bad hle2 hrv⟩
 
 /-! ### class nodes -/
 
@@ -215,7 +255,17 @@ theorem Field.written_cases (f : Field) (v : PyVal) (hok : fieldOKU f = true) :
       simp only [Field.written, hd, Dflt.toVal, Bool.not_eq_false', Bool.and_eq_true] at hw
       exact ⟨rfl, hw.1, rfl, PyVal.beq_none hw.2⟩
 
-theorem fields_out (n' : Nat) (IH : ∀ t w x, rep E bad n' t w x = true → OutAt E (some t) t w x)
+theorem repFields_congr (r : PyTy → PyVal → Json → Bool) (b b' : List (Name × Json)) :
+    ∀ (fs : List Field) (vs : List (Name × PyVal)), (∀ g ∈ fs, Json.lookup b g.wireS = Json.lookup b' g.wireS) →
+      repFields r b fs vs = repFields r b' fs vs
+  | [], [], _ => rfl
+  | [], _ :: _, _ => rfl
+  | _ :: _, [], _ => rfl
+  | f :: fs, (a, v) :: vs, h => by
+    simp only [repFields]
+    rw [h f (by simp), repFields_congr r b b' fs vs (fun g hg => h g (by simp [hg]))]
+
+theorem fields_out (n' : Nat) (IH : ∀ t w x, rep E bad n' t w x = true → OutAt E bad (some t) t w x)
     (kvs : List (Name × Json)) (vals : List (Name × PyVal)) :
     ∀ (fs : List Field) (vs : List (Name × PyVal)),
       repFields (rep E bad n') kvs fs vs = true →
@@ -225,16 +275,17 @@ theorem fields_out (n' : Nat) (IH : ∀ t w x, rep E bad n' t w x = true → Out
       ∃ out, (∃ m, unstructFields (unstruct E m) vals fs = .ok out) ∧
         (∀ kv ∈ out, ∃ f ∈ fs, f.wireS = kv.1) ∧
         keysNodup out = true ∧
-        (∃ k, relFields (nrel E k) kvs out fs = true)
-  | [], [], _, _, _, _ => ⟨[], ⟨0, rfl⟩, by simp, rfl, ⟨0, rfl⟩⟩
+        (∃ k, relFields (nrel E k) kvs out fs = true) ∧
+        (∃ k, repFields (rep E bad k) out fs vs = true)
+  | [], [], _, _, _, _ => ⟨[], ⟨0, rfl⟩, by simp, rfl, ⟨0, rfl⟩, ⟨0, rfl⟩⟩
   | [], _ :: _, h, _, _, _ => by simp [repFields] at h
   | _ :: _, [], h, _, _, _ => by simp [repFields] at h
   | f :: fs, (a, v) :: vs, h, hla, hok, hnd => by
     simp only [repFields, Bool.and_eq_true, beq_iff_eq] at h
-    obtain ⟨⟨_, hcl⟩, hrest⟩ := h
+    obtain ⟨⟨ha, hcl⟩, hrest⟩ := h
     simp only [List.map_cons] at hnd
     obtain ⟨hnotw, hnd'⟩ := namesNodup_cons hnd
-    obtain ⟨out', ⟨m2, hm2⟩, hkeys', hnodup', ⟨k2, hk2⟩⟩ :=
+    obtain ⟨out', ⟨m2, hm2⟩, hkeys', hnodup', ⟨k2, hk2⟩, ⟨r2, hr2⟩⟩ :=
       fields_out n' IH kvs vals fs vs hrest (fun p hp => hla p (by simp [hp])) (fun g hg => hok g (by simp [hg])) hnd'
     have hlav : lookupAttr vals f.name = some v := hla (f, (a, v)) (by simp)
     have hfok := hok f (by simp)
@@ -253,27 +304,56 @@ theorem fields_out (n' : Nat) (IH : ∀ t w x, rep E bad n' t w x = true → Out
       have hval : ∃ x', (∃ m, unstruct E m (some f.ty) v = .ok x') ∧
           (∃ k, (match Json.lookup kvs f.wireS with
                  | some x => nrel E k f.ty x x'
-                 | Option.none => x'.isNull && !f.omitU) = true) := by
+                 | Option.none => x'.isNull && !f.omitU) = true) ∧
+          (∃ k, rep E bad k f.ty v x' = true) ∧ f.faithfulJ x' = true := by
+        -- an always-written attribute, or one that is set: the output value is not a null that would be dropped on re-reading
+        have hfaith : ∀ x' k, rep E bad k f.ty v x' = true → f.faithfulJ x' = true := by
+          intro x' k hr
+          unfold Field.faithfulJ
+          cases hd : f.dflt with
+          | nothing => rfl
+          | other s => rfl
+          | str s =>
+            have h2 : f.omitU = false := by
+              simp only [fieldOKU, hd, Bool.and_eq_true, Bool.not_eq_true'] at hfok
+              exact hfok.2
+            simp [h2]
+          | none =>
+            cases hxn : x'.isNull with
+            | false => simp
+            | true =>
+              have hx : x' = .null := by cases x' <;> simp [Json.isNull] at hxn ⊢
+              subst hx
+              have hvn := rep_null E bad hr
+              subst hvn
+              have h2 : f.omitU = false := by
+                simp only [Field.written, hd, Dflt.toVal, PyVal.beq, Bool.and_true, Bool.not_eq_true'] at hw
+                exact hw
+              simp [h2]
         cases hl : Json.lookup kvs f.wireS with
         | some x =>
           simp only [hl, Bool.and_eq_true] at hcl
-          obtain ⟨x', hu, ⟨k, hk⟩⟩ := IH f.ty v x hcl.1
-          exact ⟨x', hu, ⟨k, hk⟩⟩
+          obtain ⟨x', hu, ⟨k, hk⟩, ⟨r, hr⟩⟩ := IH f.ty v x hcl.1
+          exact ⟨x', hu, ⟨k, hk⟩, ⟨r, hr⟩, hfaith x' r hr⟩
         | none =>
           simp only [hl, Bool.and_eq_true, beq_iff_eq] at hcl
-          have hvn := PyVal.isNone_eq hcl.2
+          have hvn := PyVal.isNone_eq hcl.1.2
           subst hvn
           have homit : f.omitU = false := by
-            simp only [Field.written, hcl.1, Dflt.toVal, PyVal.beq, Bool.and_true, Bool.not_eq_true'] at hw
+            simp only [Field.written, hcl.1.1, Dflt.toVal, PyVal.beq, Bool.and_true, Bool.not_eq_true'] at hw
             exact hw
-          have hnok : f.ty.noneOK = true := by
-            simp only [fieldOKU, hcl.1, Bool.and_eq_true, Bool.or_eq_true] at hfok
-            rcases hfok.2 with h' | h'
-            · rw [homit] at h'; cases h'
-            · exact h'
-          exact ⟨.null, ⟨2, unstruct_none_of_noneOK E hnok⟩, ⟨0, by simp [Json.isNull, homit]⟩⟩
-      obtain ⟨x', ⟨m1, hm1⟩, ⟨k1, hk1⟩⟩ := hval
-      refine ⟨(f.wireS, x') :: out', ⟨max m1 m2, ?_⟩, ?_, ?_, ⟨max k1 k2, ?_⟩⟩
+          -- `None` is a typed value of the annotation (part of the reading), so its handler passes it through
+          obtain ⟨x', hu, _, ⟨r, hr⟩⟩ := IH f.ty .none .null hcl.2
+          have hx := rep_none_val E bad hr
+          subst hx
+          exact ⟨.null, hu, ⟨0, by simp [Json.isNull, homit]⟩, ⟨r, hr⟩, hfaith .null r hr⟩
+      obtain ⟨x', ⟨m1, hm1⟩, ⟨k1, hk1⟩, ⟨r1, hr1⟩, hf1⟩ := hval
+      have hlkh : Json.lookup ((f.wireS, x') :: out') f.wireS = some x' := by simp [Json.lookup]
+      have hlkt : ∀ g ∈ fs, Json.lookup ((f.wireS, x') :: out') g.wireS = Json.lookup out' g.wireS := by
+        intro g hg
+        have hne : (f.wireS == g.wireS) = false := by simpa using (htail g hg).symm
+        simp [Json.lookup, hne]
+      refine ⟨(f.wireS, x') :: out', ⟨max m1 m2, ?_⟩, ?_, ?_, ⟨max k1 k2, ?_⟩, ⟨max r1 r2, ?_⟩⟩
       · have h1 := unstruct_mono E (Nat.le_max_left m1 m2) hm1
         have h2 := unstructFields_mono (fun o w y hh => unstruct_mono E (Nat.le_max_right m1 m2) hh) vals fs out' hm2
         simp only [unstructFields, hlav, hw, if_true, h1, h2, hwire]
@@ -285,8 +365,7 @@ theorem fields_out (n' : Nat) (IH : ∀ t w x, rep E bad n' t w x = true → Out
       · simp only [keysNodup, Json.hasKey, hlk', Option.isSome_none, Bool.not_false, hnodup', Bool.and_self]
       · simp only [relFields, Bool.and_eq_true]
         constructor
-        · have : Json.lookup ((f.wireS, x') :: out') f.wireS = some x' := by simp [Json.lookup]
-          rw [this]
+        · rw [hlkh]
           cases hl : Json.lookup kvs f.wireS with
           | some x =>
             simp only [hl] at hk1 ⊢
@@ -294,13 +373,28 @@ theorem fields_out (n' : Nat) (IH : ∀ t w x, rep E bad n' t w x = true → Out
           | none =>
             simp only [hl] at hk1 ⊢
             exact hk1
-        · rw [relFields_congr (nrel E (max k1 k2)) kvs ((f.wireS, x') :: out') out' fs (fun g hg => by
-            have hne : (f.wireS == g.wireS) = false := by simpa using (htail g hg).symm
-            simp [Json.lookup, hne])]
+        · rw [relFields_congr (nrel E (max k1 k2)) kvs ((f.wireS, x') :: out') out' fs hlkt]
           exact relFields_mono (fun t x y hh => nrel_mono E (Nat.le_max_right _ _) hh) kvs out' fs hk2
+      · simp only [repFields, Bool.and_eq_true, beq_iff_eq]
+        refine ⟨⟨ha, ?_⟩, ?_⟩
+        · rw [hlkh]
+          simp only [Bool.and_eq_true]
+          exact ⟨rep_mono E bad (Nat.le_max_left _ _) hr1, hf1⟩
+        · rw [repFields_congr (rep E bad (max r1 r2)) ((f.wireS, x') :: out') out' fs vs hlkt]
+          exact repFields_mono (fun t w x hh => rep_mono E bad (Nat.le_max_right _ _) hh) out' fs vs hr2
     · -- omitted: an unset (None) attribute of a class that omits it
       subst hvn
-      refine ⟨out', ⟨m2, ?_⟩, ?_, hnodup', ⟨k2, ?_⟩⟩
+      have hnull : rep E bad n' f.ty .none .null = true := by
+        cases hl : Json.lookup kvs f.wireS with
+        | some x =>
+          simp only [hl, Bool.and_eq_true] at hcl
+          have hx := rep_none_val E bad hcl.1
+          subst hx
+          exact hcl.1
+        | none =>
+          simp only [hl, Bool.and_eq_true] at hcl
+          exact hcl.2
+      refine ⟨out', ⟨m2, ?_⟩, ?_, hnodup', ⟨k2, ?_⟩, ⟨max n' r2, ?_⟩⟩
       · simp only [unstructFields, hlav, hw]
         exact hm2
       · intro kv hkv
@@ -316,6 +410,11 @@ theorem fields_out (n' : Nat) (IH : ∀ t w x, rep E bad n' t w x = true → Out
           subst hx
           simp [Json.isNull, homit]
         | none => rfl
+      · simp only [repFields, Bool.and_eq_true, beq_iff_eq]
+        refine ⟨⟨ha, ?_⟩, repFields_mono (fun t w x hh => rep_mono E bad (Nat.le_max_right _ _) hh) out' fs vs hr2⟩
+        rw [hlk']
+        simp only [Bool.and_eq_true, beq_iff_eq]
+        exact ⟨⟨hdflt, rfl⟩, rep_mono E bad (Nat.le_max_left _ _) hnull⟩
 
 /-! ### T2 -/
 
@@ -323,35 +422,39 @@ theorem findCls_name {c : Name} {cl : Cls} (h : E.pkg.findCls c = some cl) : cl.
   have := List.find?_some h
   simpa using this
 
-theorem handlerOf_out {x : PyTy} {v : PyVal} {j : Json} (ht : OutAt E (some x) x v j) (hd : OutAt E Option.none x v j) :
-    OutAt E x.handlerOf x v j := by
+theorem handlerOf_out {x : PyTy} {v : PyVal} {j : Json} (ht : OutAt E bad (some x) x v j) (hd : OutAt E bad Option.none x v j) :
+    OutAt E bad x.handlerOf x v j := by
   cases x <;> first | exact ht | exact hd
+
+theorem rep_union_intro {k : Nat} {ts : List PyTy} {t : PyTy} {v : PyVal} {j : Json} (hb : isBad bad (.union ts) = false)
+    (ht : t ∈ ts) (h : rep E bad k t v j = true) : rep E bad (k + 1) (.union ts) v j = true := by
+  unfold rep
+  simp only [hb, Bool.not_false, Bool.true_and, Bool.or_eq_true, List.any_eq_true]
+  exact Or.inl ⟨t, ht, h⟩
 
 /-- **T2**, both ways of calling the converter: `unstructure(v, unstructure_as = ty)` (what the
     generated class functions use for their attributes) and `unstructure(v)` (dispatch on the runtime class). -/
 theorem unstruct_total (hU : clsesOKU E = true) : ∀ (n : Nat) (ty : PyTy) (v : PyVal) (j : Json),
-    rep E bad n ty v j = true → OutAt E (some ty) ty v j ∧ OutAt E Option.none ty v j
+    rep E bad n ty v j = true → OutAt E bad (some ty) ty v j ∧ OutAt E bad Option.none ty v j
   | 0, _, _, _, h => by simp [rep] at h
   | n + 1, ty, v, j, h => by
     have IH := unstruct_total hU n
     have h0 := h
+    have hnb := rep_not_bad E bad h0
     unfold rep at h
     simp only [Bool.and_eq_true] at h
     have h2 := h.2
-    have scalar : ∀ (j0 : Json), rawJson 1 v = .ok j0 → j = j0 →
-        (∀ m, unstruct E (m + 1) (some ty) v = rawJson (m + 1) v) → (∀ m, unstruct E (m + 1) Option.none v = rawJson (m + 1) v) →
-        (∀ m, nrel E (m + 1) ty j j = Json.beq j j) →
-        OutAt E (some ty) ty v j ∧ OutAt E Option.none ty v j := by
-      intro j0 hr hj ht hd hn
-      subst hj
-      exact ⟨⟨j, ⟨1, by rw [ht 0]; exact hr⟩, NRel.refl_of_scalar E j hn⟩, ⟨j, ⟨1, by rw [hd 0]; exact hr⟩, NRel.refl_of_scalar E j hn⟩⟩
+    -- the output is the input itself
+    have same : (∃ m, unstruct E m (some ty) v = .ok j) → (∃ m, unstruct E m Option.none v = .ok j) →
+        (∀ m, nrel E (m + 1) ty j j = Json.beq j j) → OutAt E bad (some ty) ty v j ∧ OutAt E bad Option.none ty v j :=
+      fun ht hd hn => ⟨⟨j, ht, NRel.refl_of_scalar E j hn, ⟨n + 1, h0⟩⟩, ⟨j, hd, NRel.refl_of_scalar E j hn, ⟨n + 1, h0⟩⟩⟩
     cases ty with
     | int =>
       cases v <;> cases j <;> try (simp at h2; done)
       rename_i a b
       have hab : a = b := by simpa using h2
       subst hab
-      exact scalar (.int a) rfl rfl (fun m => by simp [unstruct]) (fun m => by simp [unstruct]) (fun m => by simp [nrel])
+      exact same ⟨1, by simp [unstruct, rawJson]⟩ ⟨1, by simp [unstruct, rawJson]⟩ (fun m => by simp [nrel])
     | float =>
       cases v <;> cases j <;> try (simp at h2; done)
       all_goals
@@ -360,29 +463,29 @@ theorem unstruct_total (hU : clsesOKU E = true) : ∀ (n : Nat) (ty : PyTy) (v :
         rename_i a
         have hab : a = b := by simpa using h2
         subst hab
-        exact scalar _ rfl rfl (fun m => by simp [unstruct]) (fun m => by simp [unstruct]) (fun m => by simp [nrel])
+        exact same ⟨1, by simp [unstruct, rawJson]⟩ ⟨1, by simp [unstruct, rawJson]⟩ (fun m => by simp [nrel])
     | str =>
       cases v <;> cases j <;> try (simp at h2; done)
       rename_i a b
       have hab : a = b := by simpa using h2
       subst hab
-      exact scalar (.str a) rfl rfl (fun m => by simp [unstruct]) (fun m => by simp [unstruct]) (fun m => by simp [nrel])
+      exact same ⟨1, by simp [unstruct, rawJson]⟩ ⟨1, by simp [unstruct, rawJson]⟩ (fun m => by simp [nrel])
     | bool =>
       cases v <;> cases j <;> try (simp at h2; done)
       rename_i a b
       have hab : a = b := by simpa using h2
       subst hab
-      exact scalar (.bool a) rfl rfl (fun m => by simp [unstruct]) (fun m => by simp [unstruct]) (fun m => by simp [nrel])
+      exact same ⟨1, by simp [unstruct, rawJson]⟩ ⟨1, by simp [unstruct, rawJson]⟩ (fun m => by simp [nrel])
     | none =>
       cases v <;> cases j <;> try (simp at h2; done)
-      exact scalar .null rfl rfl (fun m => by simp [unstruct]) (fun m => by simp [unstruct]) (fun m => by simp [nrel])
+      exact same ⟨1, by simp [unstruct, rawJson]⟩ ⟨1, by simp [unstruct, rawJson]⟩ (fun m => by simp [nrel])
     | literal vs =>
       cases v <;> cases j <;> try (simp at h2; done)
       rename_i a b
       simp only [Bool.and_eq_true, beq_iff_eq] at h2
       obtain ⟨hab, _⟩ := h2
       subst hab
-      exact scalar (.str a) rfl rfl (fun m => by simp [unstruct]) (fun m => by simp [unstruct]) (fun m => by simp [nrel])
+      exact same ⟨1, by simp [unstruct, rawJson]⟩ ⟨1, by simp [unstruct, rawJson]⟩ (fun m => by simp [nrel])
     | enum e =>
       simp only at h2
       cases hf : E.pkg.findEnum e with
@@ -395,56 +498,55 @@ theorem unstruct_total (hU : clsesOKU E = true) : ∀ (n : Nat) (ty : PyTy) (v :
           have hjv : j = val.toJson := by
             cases val <;> cases j <;> simp at hj <;> simp [EnumVal.toJson, hj]
           subst hjv
-          have hn : NRel E (.enum e) val.toJson val.toJson := ⟨1, by simp [nrel, Json.beq_refl]⟩
-          exact ⟨⟨_, ⟨1, by simp [unstruct]⟩, hn⟩, ⟨_, ⟨1, by simp [unstruct]⟩, hn⟩⟩
+          exact same ⟨1, by simp [unstruct]⟩ ⟨1, by simp [unstruct]⟩ (fun m => by simp [nrel])
     | any =>
       have hoj : isOfJson v j = true := h2
       obtain ⟨m, hm⟩ := ofJson_unstruct E v j hoj
-      have hn : NRel E .any j j := ⟨1, by simp [nrel, Json.beq_refl]⟩
-      exact ⟨⟨j, ⟨m + 1, by simp [unstruct, hm]⟩, hn⟩, ⟨j, ⟨m, hm⟩, hn⟩⟩
+      exact same ⟨m + 1, by simp [unstruct, hm]⟩ ⟨m, hm⟩ (fun m => by simp [nrel])
     | obj =>
       cases j <;> try (simp at h2; done)
       rename_i kvs
       have hoj : isOfJson v (.obj kvs) = true := h2
       obtain ⟨m, hm⟩ := ofJson_unstruct E v _ hoj
       obtain ⟨m', hm'⟩ := ofJson_raw v _ hoj
-      have hn : NRel E .obj (.obj kvs) (.obj kvs) := ⟨1, by simp [nrel, Json.beq_refl]⟩
-      refine ⟨⟨_, ⟨m' + 1, ?_⟩, hn⟩, ⟨_, ⟨m, hm⟩, hn⟩⟩
+      refine same ⟨m' + 1, ?_⟩ ⟨m, hm⟩ (fun m => by simp [nrel])
       simp only [unstruct]
       exact rawJson_succ _ _ _ hm'
     | unknown s => simp at h2
     | seq t =>
       cases v <;> cases j <;> try (simp at h2; done)
       case list.arr vs xs =>
-        obtain ⟨ys, ⟨m, hm⟩, ⟨k, hk⟩⟩ := collect_list E bad (some t) t n (fun w x hh => (IH t w x hh).1) vs xs h2
-        obtain ⟨ys', ⟨m', hm'⟩, ⟨k', hk'⟩⟩ := collect_list E bad Option.none t n (fun w x hh => (IH t w x hh).2) vs xs h2
-        exact ⟨⟨.arr ys, ⟨m + 1, by simp [unstruct, hm, bind, Except.bind]⟩, ⟨k + 1, by simp [nrel, hk]⟩⟩,
-          ⟨.arr ys', ⟨m' + 1, by simp [unstruct, hm', bind, Except.bind]⟩, ⟨k' + 1, by simp [nrel, hk']⟩⟩⟩
+        obtain ⟨ys, ⟨m, hm⟩, ⟨k, hk⟩, ⟨r, hr⟩⟩ := collect_list E bad (some t) t n (fun w x hh => (IH t w x hh).1) vs xs h2
+        obtain ⟨ys', ⟨m', hm'⟩, ⟨k', hk'⟩, ⟨r', hr'⟩⟩ := collect_list E bad Option.none t n (fun w x hh => (IH t w x hh).2) vs xs h2
+        exact ⟨⟨.arr ys, ⟨m + 1, by simp [unstruct, hm, bind, Except.bind]⟩, ⟨k + 1, by simp [nrel, hk]⟩, ⟨r + 1, by simp [rep, hnb, hr]⟩⟩,
+          ⟨.arr ys', ⟨m' + 1, by simp [unstruct, hm', bind, Except.bind]⟩, ⟨k' + 1, by simp [nrel, hk']⟩, ⟨r' + 1, by simp [rep, hnb, hr']⟩⟩⟩
     | tuple ts =>
       cases v <;> cases j <;> try (simp at h2; done)
       case tuple.arr vs xs =>
-        obtain ⟨ys, ⟨m, hm⟩, ⟨k, hk⟩⟩ := collect_tuple_t E bad n (fun t w x hh => (IH t w x hh).1) ts vs xs h2
-        obtain ⟨ys', ⟨m', hm'⟩, ⟨k', hk'⟩⟩ := collect_tuple_d E bad n (fun t w x hh => (IH t w x hh).2) ts vs xs h2
-        exact ⟨⟨.arr ys, ⟨m + 1, by simp [unstruct, hm, bind, Except.bind]⟩, ⟨k + 1, by simp [nrel, hk]⟩⟩,
-          ⟨.arr ys', ⟨m' + 1, by simp [unstruct, hm', bind, Except.bind]⟩, ⟨k' + 1, by simp [nrel, hk']⟩⟩⟩
+        obtain ⟨ys, ⟨m, hm⟩, ⟨k, hk⟩, ⟨r, hr⟩⟩ := collect_tuple_t E bad n (fun t w x hh => (IH t w x hh).1) ts vs xs h2
+        obtain ⟨ys', ⟨m', hm'⟩, ⟨k', hk'⟩, ⟨r', hr'⟩⟩ := collect_tuple_d E bad n (fun t w x hh => (IH t w x hh).2) ts vs xs h2
+        exact ⟨⟨.arr ys, ⟨m + 1, by simp [unstruct, hm, bind, Except.bind]⟩, ⟨k + 1, by simp [nrel, hk]⟩, ⟨r + 1, by simp [rep, hnb, hr]⟩⟩,
+          ⟨.arr ys', ⟨m' + 1, by simp [unstruct, hm', bind, Except.bind]⟩, ⟨k' + 1, by simp [nrel, hk']⟩, ⟨r' + 1, by simp [rep, hnb, hr']⟩⟩⟩
     | dict kt vt =>
       cases v <;> cases j <;> try (simp at h2; done)
       case dict.obj ps kvs =>
         simp only [Bool.and_eq_true] at h2
-        obtain ⟨out, ⟨m, hm⟩, ⟨k, hk⟩⟩ := collect_entries_u E bad (some kt) (some vt) kt vt n
+        obtain ⟨out, ⟨m, hm⟩, ⟨k, hk⟩, hkeys, ⟨r, hr⟩⟩ := collect_entries_u E bad (some kt) (some vt) kt vt n
           (fun w x hh => (IH kt w x hh).1) (fun w x hh => (IH vt w x hh).1) (fun hk s => by subst hk; rfl) ps kvs h2.2
-        obtain ⟨out', ⟨m', hm'⟩, ⟨k', hk'⟩⟩ := collect_entries_u E bad Option.none Option.none kt vt n
+        obtain ⟨out', ⟨m', hm'⟩, ⟨k', hk'⟩, hkeys', ⟨r', hr'⟩⟩ := collect_entries_u E bad Option.none Option.none kt vt n
           (fun w x hh => (IH kt w x hh).2) (fun w x hh => (IH vt w x hh).2) (fun _ s => rfl) ps kvs h2.2
-        exact ⟨⟨.obj out, ⟨m + 1, by simp [unstruct, hm, bind, Except.bind]⟩, ⟨k + 1, by simp [nrel, hk]⟩⟩,
-          ⟨.obj out', ⟨m' + 1, by simp [unstruct, hm', bind, Except.bind]⟩, ⟨k' + 1, by simp [nrel, hk']⟩⟩⟩
+        have hnd : keysNodup out = true := by rw [keysNodup_congr out kvs hkeys]; exact h2.1
+        have hnd' : keysNodup out' = true := by rw [keysNodup_congr out' kvs hkeys']; exact h2.1
+        exact ⟨⟨.obj out, ⟨m + 1, by simp [unstruct, hm, bind, Except.bind]⟩, ⟨k + 1, by simp [nrel, hk]⟩, ⟨r + 1, by simp [rep, hnb, hnd, hr]⟩⟩,
+          ⟨.obj out', ⟨m' + 1, by simp [unstruct, hm', bind, Except.bind]⟩, ⟨k' + 1, by simp [nrel, hk']⟩, ⟨r' + 1, by simp [rep, hnb, hnd', hr']⟩⟩⟩
     | cls c =>
-      obtain ⟨n', cl, vals, kvs, hn, hc, rfl, rfl, _, _, hrf, _⟩ := rep_cls_inv E bad h0
+      obtain ⟨n', cl, vals, kvs, hn, hc, rfl, rfl, _, _, hrf, ⟨u, hru⟩⟩ := rep_cls_inv E bad h0
       cases hn
       have hclm : cl ∈ E.pkg.classes := List.mem_of_find?_eq_some hc
       have hcl := List.all_eq_true.mp hU cl hclm
       simp only [clsOKU, Bool.and_eq_true] at hcl
       obtain ⟨⟨hnames, hwires⟩, hfields⟩ := hcl
-      obtain ⟨out, ⟨m, hm⟩, hkeys, hnodup, ⟨k, hk⟩⟩ := fields_out E bad n (fun t w x hh => (IH t w x hh).1) kvs vals cl.fields vals hrf
+      obtain ⟨out, ⟨m, hm⟩, hkeys, hnodup, ⟨k, hk⟩, ⟨r, hr⟩⟩ := fields_out E bad n (fun t w x hh => (IH t w x hh).1) kvs vals cl.fields vals hrf
         (lookupAttr_aligned _ kvs cl.fields vals hrf hnames) (fun f hf => List.all_eq_true.mp hfields f hf) hwires
       have hname := findCls_name E hc
       have hc' : E.pkg.findCls cl.name = some cl := by rw [hname]; exact hc
@@ -454,33 +556,38 @@ theorem unstruct_total (hU : clsesOKU E = true) : ∀ (n : Nat) (ty : PyTy) (v :
         obtain ⟨f, hf, hfw⟩ := hkeys kv hkv
         exact ⟨f, hf, hfw⟩
       have hn : NRel E (.cls c) (.obj kvs) (.obj out) := ⟨k + 1, by simp [nrel, hc, hnodup, hdecl, hk]⟩
-      exact ⟨⟨.obj out, ⟨m + 1, by simp [unstruct, hc, hm, bind, Except.bind]⟩, hn⟩,
-        ⟨.obj out, ⟨m + 1, by simp [unstruct, hc', hm, bind, Except.bind]⟩, hn⟩⟩
+      have hrep : Rep E bad (.cls c) (.inst cl.name vals) (.obj out) := ⟨r + 1, by
+        unfold rep
+        simp only [hc, hnb, Bool.not_false, Bool.true_and, beq_self_eq_true, hnodup, hdecl, hr, hru]⟩
+      exact ⟨⟨.obj out, ⟨m + 1, by simp [unstruct, hc, hm, bind, Except.bind]⟩, hn, hrep⟩,
+        ⟨.obj out, ⟨m + 1, by simp [unstruct, hc', hm, bind, Except.bind]⟩, hn, hrep⟩⟩
     | union ts =>
       obtain ⟨n', hn', halt⟩ := rep_union_inv E bad h0
       cases hn'
       -- the runtime-class dispatch (`unstructure(v)`)
-      have hD : OutAt E Option.none (.union ts) v j := by
+      have hD : OutAt E bad Option.none (.union ts) v j := by
         rcases halt with ⟨t, ht, hr⟩ | ⟨_, hraw⟩
-        · obtain ⟨j', hu, ⟨k, hk⟩⟩ := (IH t v j hr).2
+        · obtain ⟨j', hu, ⟨k, hk⟩, ⟨r, hrr⟩⟩ := (IH t v j hr).2
           exact ⟨j', hu, ⟨k + 1, by
             simp only [nrel, Bool.or_eq_true, List.any_eq_true]
-            exact Or.inl ⟨t, ht, hk⟩⟩⟩
+            exact Or.inl ⟨t, ht, hk⟩⟩, ⟨r + 1, rep_union_intro E bad hnb ht hrr⟩⟩
         · simp only [rawEnum, List.any_eq_true] at hraw
           obtain ⟨t, _, hh⟩ := hraw
           have hn : NRel E (.union ts) j j := ⟨1, by simp [nrel, Json.beq_refl]⟩
           cases t <;> try (simp at hh; done)
-          cases v <;> cases j <;> try (simp at hh; done)
+          cases hv : v <;> cases hj : j <;> simp only [hv, hj] at hh <;> try (simp at hh; done)
           all_goals
             simp only [Bool.and_eq_true, beq_iff_eq] at hh
             obtain ⟨hab, _⟩ := hh
             subst hab
-            exact ⟨_, ⟨1, rfl⟩, hn⟩
+            refine ⟨_, ⟨1, rfl⟩, ?_, ⟨n + 1, ?_⟩⟩
+            · rw [← hj]; exact hn
+            · rw [← hj, ← hv]; exact h0
       refine ⟨?_, hD⟩
       cases ho : PyTy.optionalOf ts with
       | none =>
-        obtain ⟨j', ⟨m, hm⟩, hn⟩ := hD
-        exact ⟨j', ⟨m + 1, by simp [unstruct, ho, hm]⟩, hn⟩
+        obtain ⟨j', ⟨m, hm⟩, hn, hr⟩ := hD
+        exact ⟨j', ⟨m + 1, by simp [unstruct, ho, hm]⟩, hn, hr⟩
       | some x =>
         have hmem : ∀ u ∈ ts, u = x ∨ u = PyTy.none := by
           rcases optionalOf_inv' ho with rfl | rfl <;> (intro u hu; simp at hu; rcases hu with rfl | rfl <;> simp)
@@ -490,7 +597,7 @@ theorem unstruct_total (hU : clsesOKU E = true) : ∀ (n : Nat) (ty : PyTy) (v :
           · subst hv
             have hj := rep_none_val E bad hr
             subst hj
-            exact ⟨.null, ⟨1, by simp [unstruct, ho, PyVal.isNoneV]⟩, ⟨1, by simp [nrel, Json.beq]⟩⟩
+            exact ⟨.null, ⟨1, by simp [unstruct, ho, PyVal.isNoneV]⟩, ⟨1, by simp [nrel, Json.beq]⟩, ⟨n + 1, h0⟩⟩
           · have htx : t = x := by
               rcases hmem t ht with rfl | rfl
               · rfl
@@ -498,22 +605,23 @@ theorem unstruct_total (hU : clsesOKU E = true) : ∀ (n : Nat) (ty : PyTy) (v :
                 subst hjn
                 exact absurd (rep_null E bad hr) hv
             subst htx
-            obtain ⟨j', ⟨m, hm⟩, ⟨k, hk⟩⟩ := handlerOf_out E (IH t v j hr).1 (IH t v j hr).2
+            obtain ⟨j', ⟨m, hm⟩, ⟨k, hk⟩, ⟨r, hrr⟩⟩ := handlerOf_out E bad (IH t v j hr).1 (IH t v j hr).2
             have hvn : v.isNoneV = false := by
               cases hvv : v.isNoneV with
               | false => rfl
               | true => exact absurd (PyVal.isNoneV_iff.mp hvv) hv
             exact ⟨j', ⟨m + 1, by simp [unstruct, ho, hvn, hm]⟩, ⟨k + 1, by
               simp only [nrel, Bool.or_eq_true, List.any_eq_true]
-              exact Or.inl ⟨t, hxin, hk⟩⟩⟩
+              exact Or.inl ⟨t, hxin, hk⟩⟩, ⟨r + 1, rep_union_intro E bad hnb hxin hrr⟩⟩
         · simp [ho] at hno
 
-/-- **T2.**  A typed reading `v` of the JSON value `j` at `ty` unstructures to a JSON value related
-    to `j` by the null rule — whichever way the converter is called. -/
+/-- **T2.**  A typed reading `v` of the JSON value `j` at `ty` unstructures to a JSON value `j'`
+    related to `j` by the null rule — whichever way the converter is called — and `v` is a typed
+    reading of `j'` as well (the output is again valid for `ty`). -/
 theorem T2 (hU : clsesOKU E = true) {n : Nat} {ty : PyTy} {v : PyVal} {j : Json} (h : rep E bad n ty v j = true) :
-    (∃ j' m, unstruct E m (some ty) v = .ok j' ∧ ∃ k, nrel E k ty j j' = true) ∧
-    (∃ j' m, unstruct E m Option.none v = .ok j' ∧ ∃ k, nrel E k ty j j' = true) := by
-  obtain ⟨⟨j1, ⟨m1, h1⟩, hk1⟩, ⟨j2, ⟨m2, h2⟩, hk2⟩⟩ := unstruct_total E bad hU n ty v j h
-  exact ⟨⟨j1, m1, h1, hk1⟩, ⟨j2, m2, h2, hk2⟩⟩
+    (∃ j' m, unstruct E m (some ty) v = .ok j' ∧ (∃ k, nrel E k ty j j' = true) ∧ ∃ k, rep E bad k ty v j' = true) ∧
+    (∃ j' m, unstruct E m Option.none v = .ok j' ∧ (∃ k, nrel E k ty j j' = true) ∧ ∃ k, rep E bad k ty v j' = true) := by
+  obtain ⟨⟨j1, ⟨m1, h1⟩, hk1, hr1⟩, ⟨j2, ⟨m2, h2⟩, hk2, hr2⟩⟩ := unstruct_total E bad hU n ty v j h
+  exact ⟨⟨j1, m1, h1, hk1, hr1⟩, ⟨j2, m2, h2, hk2, hr2⟩⟩
 
 end LspVerif
